@@ -118,6 +118,15 @@ theorem modStreamW_ev (s : Streams) (k : Nat) (f : Stream → Stream × List Str
     rw [stream_of_get? hst]; exact h st hst
   · exact panic_ev _ _
 
+/-- the same with the side condition stated on `s.stream k` -/
+theorem modStream_ev' (s : Streams) (k : Nat) (f : Stream → Stream)
+    (h : Same (s.stream k) (f (s.stream k))) : Ev s (s.modStream k f) :=
+  modStream_ev s k f (fun st hst => by rw [stream_of_get? hst] at h; exact h)
+
+theorem modStreamW_ev' (s : Streams) (k : Nat) (f : Stream → Stream × List String)
+    (h : Same (s.stream k) (f (s.stream k)).1) : Ev s (s.modStreamW k f) :=
+  modStreamW_ev s k f (fun st hst => by rw [stream_of_get? hst] at h; exact h)
+
 -- ===================================================================== frame facts about single steps
 
 theorem find?_map_key (l : List Stream) (g : Stream → Stream) (k : Nat) (hg : ∀ x, (g x).key = x.key) :
